@@ -731,8 +731,8 @@ func (a *Analysis) ruleCloseCalls() {
 		if failed > 0 && !isDisposal {
 			a.add("C12", "C12.report", kind, "op%d %s on h%d: %d instance Close calls failed inside this call but it returned %v", op.GID, op.Op, op.Handle, failed, op.Err)
 		}
-		if failed == 0 && op.Err != nil {
-			a.add("C12", "C12.report", kind+"/spurious", "op%d %s on h%d returned %v although no instance Close failed inside this call", op.GID, op.Op, op.Handle, op.Err)
+		if failed == 0 && op.Err != nil && a.failedClosesDuring(op, false) == 0 {
+			a.add("C12", "C12.report", kind+"/spurious", "op%d %s on h%d returned %v although no instance Close of its subtree failed while it ran", op.GID, op.Op, op.Handle, op.Err)
 		}
 		if fe, ok := firstEnd[op.Handle]; ok && op.StartSeq > fe {
 			if op.Err != nil {
@@ -743,6 +743,69 @@ func (a *Analysis) ruleCloseCalls() {
 			}
 		}
 	}
+}
+
+// failedClosesDuring counts the instance Close calls of op's subtree that
+// returned an error between op's start and its return. unreportedOnly: leave out
+// those executed by another client task (inside that task's own Close call, which
+// receives the error).
+func (a *Analysis) failedClosesDuring(op *OpResult, unreportedOnly bool) int {
+	me := a.h.taskOfOp(op)
+	tasks := a.h.sim.Tasks()
+	isClient := func(t int) bool { return t >= 0 && t < len(tasks) && tasks[t].Client }
+	n := 0
+	for _, ev := range a.h.evts {
+		if ev.Kind != EvCloseEnter || ev.Seq > op.EndSeq {
+			continue
+		}
+		if ev.Seq < op.StartSeq && (unreportedOnly || isClient(ev.Task)) {
+			// before the call: only a failure met by a cancellation watcher counts, and only as
+			// something the call MAY still report (the scope may have been in the middle of its
+			// unattended disposal when the call found it)
+			continue
+		}
+		in := a.inst(ev.Inst)
+		if in == nil || in.closeErr == nil || in.closeCount == 0 || in.closeSeq[0] != ev.Seq {
+			continue
+		}
+		ow := a.ownerOf(in)
+		inSub := false
+		switch {
+		case op.Handle == 0:
+			inSub = ow.Kind == OwScope || ow.Kind == OwRoot || ow.Kind == OwProvider
+		case ow.Kind == OwScope:
+			inSub = ow.ID == op.Handle || a.descendantOf(ow.ID, op.Handle)
+		}
+		if !inSub {
+			continue
+		}
+		if unreportedOnly && ev.Task != me && isClient(ev.Task) {
+			continue
+		}
+		if unreportedOnly && ow.Kind == OwScope {
+			// a watcher woken by the caller's own cancellation of a context has nobody to report to,
+			// and that is nobody else's business: only watchers woken by this very Close count
+			userCancelled := false
+			for hid := ow.ID; hid > 0 && hid != op.Handle; {
+				hd := a.h.handle(hid)
+				if hd == nil {
+					break
+				}
+				if hd.CancelSeq > 0 && hd.CancelSeq <= ev.Seq {
+					userCancelled = true
+				}
+				if hd.Parent == hid {
+					break
+				}
+				hid = hd.Parent
+			}
+			if userCancelled {
+				continue
+			}
+		}
+		n++
+	}
+	return n
 }
 
 func (h *H) taskOfOp(op *OpResult) int {
@@ -1149,6 +1212,12 @@ func (a *Analysis) ruleCloseComplete() {
 		}
 		if !sole {
 			continue
+		}
+		// C12.report for a sole closer: a failing instance Close anywhere in its subtree while it ran -
+		// also one executed by a cancellation watcher that this very Close woke up, whose error would
+		// otherwise reach nobody - makes it return a disposal error
+		if n := a.failedClosesDuring(op, true); n > 0 && !hasClass(op.Classes, EDisposal) {
+			a.add("C12", "C12.report", "sole-closer/lost", "op%d %s on h%d returned %v although %d instance Close calls in its subtree failed while it ran (none of them inside another caller's Close)", op.GID, op.Op, op.Handle, op.Err, n)
 		}
 		for _, in := range a.h.insts {
 			if in.Inv < 0 || !m.regs[in.Reg].Outs[in.OutIdx].Concrete.IsDisp() {
